@@ -6,6 +6,7 @@ import (
 	"errors"
 	"math"
 	"math/rand"
+	"time"
 
 	"github.com/arnodel/golua/lib/packagelib"
 	rt "github.com/arnodel/golua/runtime"
@@ -22,6 +23,9 @@ func load(r *rt.Runtime) (rt.Value, func()) {
 	r.SetEnv(pkg, "maxinteger", rt.IntValue(math.MaxInt64))
 	r.SetEnv(pkg, "mininteger", rt.IntValue(math.MinInt64))
 	r.SetEnv(pkg, "pi", rt.FloatValue(math.Pi))
+
+	// Each runtime has its own random generator, seeded at random.
+	rng := &randomGenerator{rand.New(rand.NewSource(randomSeed()))}
 
 	rt.SolemnlyDeclareCompliance(
 		rt.ComplyCpuSafe|rt.ComplyMemSafe|rt.ComplyTimeSafe|rt.ComplyIoSafe,
@@ -41,8 +45,8 @@ func load(r *rt.Runtime) (rt.Value, func()) {
 		r.SetEnvGoFunc(pkg, "min", min, 1, true),
 		r.SetEnvGoFunc(pkg, "modf", modf, 1, false),
 		r.SetEnvGoFunc(pkg, "rad", rad, 1, false),
-		r.SetEnvGoFunc(pkg, "random", random, 2, false),
-		r.SetEnvGoFunc(pkg, "randomseed", randomseed, 2, false),
+		r.SetEnvGoFunc(pkg, "random", rng.random, 2, false),
+		r.SetEnvGoFunc(pkg, "randomseed", rng.randomseed, 2, false),
 		r.SetEnvGoFunc(pkg, "sin", sin, 1, false),
 		r.SetEnvGoFunc(pkg, "sqrt", sqrt, 1, false),
 		r.SetEnvGoFunc(pkg, "tan", tan, 1, false),
@@ -307,8 +311,20 @@ func rad(t *rt.Thread, c *rt.GoCont) (rt.Cont, error) {
 	return c.PushingNext1(t.Runtime, y), nil
 }
 
-// TODO: have a per runtime random generator
-func random(t *rt.Thread, c *rt.GoCont) (rt.Cont, error) {
+// A randomGenerator is the source of the random numbers of one runtime.
+type randomGenerator struct {
+	*rand.Rand
+}
+
+// randomSeed returns a seed that is as random as possible.
+func randomSeed() (seed int64) {
+	if err := binary.Read(crypto.Reader, binary.LittleEndian, &seed); err != nil {
+		seed = time.Now().UnixNano()
+	}
+	return seed
+}
+
+func (g *randomGenerator) random(t *rt.Thread, c *rt.GoCont) (rt.Cont, error) {
 	var (
 		err error
 		m   int64 = 1
@@ -316,12 +332,12 @@ func random(t *rt.Thread, c *rt.GoCont) (rt.Cont, error) {
 	)
 	switch c.NArgs() {
 	case 0:
-		return c.PushingNext1(t.Runtime, rt.FloatValue(rand.Float64())), nil
+		return c.PushingNext1(t.Runtime, rt.FloatValue(g.Float64())), nil
 	case 1:
 		n, err = c.IntArg(0)
 		// Special case, new in Lua 5.4: math.random(0) returns a uniform integer.
 		if n == 0 {
-			return c.PushingNext1(t.Runtime, rt.IntValue(int64(rand.Uint64()))), nil
+			return c.PushingNext1(t.Runtime, rt.IntValue(int64(g.Uint64()))), nil
 		}
 	case 2:
 		m, err = c.IntArg(0)
@@ -339,20 +355,20 @@ func random(t *rt.Thread, c *rt.GoCont) (rt.Cont, error) {
 	if m <= 0 && m+math.MaxInt64 < n {
 		// There's >= 50% chance the loop stops at each iteration so we're OK!
 		for {
-			r = int64(rand.Uint64())
+			r = int64(g.Uint64())
 			if r >= m && r <= n {
 				break
 			}
 		}
 	} else if m+math.MaxInt64 == n {
-		r = rand.Int63()
+		r = g.Int63()
 	} else {
-		r = rand.Int63n(n - m + 1)
+		r = g.Int63n(n - m + 1)
 	}
 	return c.PushingNext1(t.Runtime, rt.IntValue(m+r)), nil
 }
 
-func randomseed(t *rt.Thread, c *rt.GoCont) (rt.Cont, error) {
+func (g *randomGenerator) randomseed(t *rt.Thread, c *rt.GoCont) (rt.Cont, error) {
 	var (
 		seed int64
 		err  error
@@ -381,7 +397,7 @@ func randomseed(t *rt.Thread, c *rt.GoCont) (rt.Cont, error) {
 		// In Go the seed is only 64 bits so we mangle the seeds
 		seed ^= seed2
 	}
-	rand.Seed(seed)
+	g.Seed(seed)
 	return c.PushingNext(t.Runtime, rt.IntValue(seed), rt.IntValue(0)), nil
 }
 
